@@ -139,3 +139,21 @@ func (r *relayTable) DeleteByPeer(peer identity.AgentID) int {
 	}
 	return n
 }
+
+// PopByPeer removes every entry where either the upstream or downstream peer
+// is `peer` and returns the removed entries, so that the caller can tell the
+// surviving side of each relay that the tunnel is gone. Used during peer
+// disconnect cleanup.
+func (r *relayTable) PopByPeer(peer identity.AgentID) []*relayEntry {
+	r.mu.Lock()
+	defer r.mu.Unlock()
+	var out []*relayEntry
+	for id, e := range r.byUpstream {
+		if e.UpstreamPeer == peer || e.DownstreamPeer == peer {
+			delete(r.byUpstream, id)
+			delete(r.byDownstream, e.DownstreamID)
+			out = append(out, e)
+		}
+	}
+	return out
+}
